@@ -136,6 +136,16 @@ META["C11"] = {
             "algorithm over all maps is out of reach for this family.",
     "technique": "static analysis: abstract interpretation of MIR emission functions + symbolic machine; dominator/provenance rules",
 }
+META["C14"] = {
+    "level": "Structural decision over the finite population of label-defining sites (string shapes recovered from MIR, including "
+             "format templates), folded stride tables, provenance of the normalised clause vector, and encodability checks on the "
+             "folded instruction templates for boundary literals. Found and repaired: imm64 store to a spill slot (x86-64) and a "
+             "lifted label colliding with a user definition.",
+    "design_ref": "DESIGN.md §3 R-LABEL/R-STRIDE/R-JTORDER/R-IMM, §4 C14",
+    "note": "Partial: label uniqueness is argued per class (shape + counter + freshness helper), instruction-form validity only for "
+            "immediates, offsets and the forms the ISA table knows.",
+    "technique": "static analysis: MIR string-shape recovery, constant folding of table functions, collection provenance, symbolic machine encodability checks",
+}
 
 NOT_APPLICABLE = {
     "C09": "Run-time heap invariant of *generated* code at every statement boundary of every execution; no path property of the "
@@ -145,5 +155,5 @@ NOT_APPLICABLE = {
 }
 # properties whose checks are not built yet are listed here until their rules exist (kept current by bin/gen-manifest)
 PENDING = "check not built yet in this round; planned rules are in DESIGN.md §4"
-for _p in ["C14", "C15", "C16", "C20"]:
+for _p in ["C15", "C16", "C20"]:
     NOT_APPLICABLE.setdefault(_p, PENDING)
